@@ -12,6 +12,7 @@ EXPLANATION = (
     "annotation dict; the client assigns the reply's annotations unconditionally after the sequence check on every path to a "
     "reply-carrying exit; every received message owns a fresh annotations dict."
     "Also decided: context stores count only when left normally (edge-based must-pass); the request's correlation id is adopted exactly on the flag edge; the client clears the response annotations before sending. "
+    "Also decided (round 10): No client-side code (compatibility layer included) edits the caller's annotations dict in place. "
     "Also decided (round 7): What the annotations() hook returns is only read (never mutated, returned or kept); the calling thread's own request-annotation dict is only read by the client call path. "
     "Not decided: what a method observes under real interleavings (thread-locality is the interpreter's)."
 )
